@@ -372,8 +372,17 @@ func (g *SysGen) mvAuthorize() {
 			op.Params.RespType = a.Params.RespType
 			op.Params.State = pick(g.R, []string{"", "outer-state"})
 			if g.chance(g.DevRate) {
-				op.Params.Redirect = pick(g.R, []string{"https://evil.example/cb", a.Params.Redirect})
-				op.Params.Scopes = pick(g.R, []string{"admin", "openid", a.Params.Scopes})
+				// an outer redirect_uri and an outer invalid parameter, independently: the redirect URI may
+				// be only inside the pushed request
+				if g.R.Intn(2) == 0 {
+					op.Params.Redirect = pick(g.R, []string{"https://evil.example/cb", a.Params.Redirect})
+				}
+				if g.R.Intn(3) != 0 {
+					op.Params.Scopes = pick(g.R, []string{"admin", "openid", a.Params.Scopes})
+				}
+				if g.R.Intn(4) == 0 {
+					op.Params.RespMode = pick(g.R, []string{"bogus", "query"})
+				}
 			}
 		}
 		p = a.Params
